@@ -10,9 +10,9 @@ package network
 //   b1  every tag of protocol.TagList plus an unknown ("zz") and a deprecated ("pi") tag x payload kind
 //       (pattern bytes; for MI a valid tag list padded to the length; for TS: a valid response padded to the
 //       length with a registered request, a stale response, an unrequested response) x payload length in
-//       {limit-1, limit, limit+1} (limit = Tag.MaxMessageSize) x frame chunking {1 chunk, 2 chunks with the cut at
+//       {limit-1, limit, limit+1, limit+200000} (limit = Tag.MaxMessageSize) x frame chunking {1 chunk, 2 chunks with the cut at
 //       every boundary class (inside the tag, tag|payload, base buffer -1/0/+1, base+64K -1/0/+1, limit -1/0/+1,
-//       last byte), fixed 50001-byte chunks for large payloads, byte-at-a-time for tags with limit <= 8192} x
+//       last byte; thorough: 3 chunks at every pair of boundary classes), fixed 50001-byte chunks for large payloads, byte-at-a-time for tags with limit <= 8192} x
 //       {EOF as a separate read, EOF together with the last data}; plus a reader error inside the payload, a
 //       non-binary websocket message and a truncated tag.
 //   b2  zstd-compressed proposals whose DECOMPRESSED size is {limit-1, limit, limit+1, 4*limit} x content
@@ -475,6 +475,16 @@ func c43Chunkings(total, limit int, quickBig bool) []c43Script {
 			add([]int{cut, total - cut})
 		}
 	}
+	if ve.Thorough() {
+		cs := c43Uniq(cuts)
+		for i, c1 := range cs {
+			for _, c2 := range cs[i+1:] {
+				if c1 > 0 && c2 < total {
+					add([]int{c1, c2 - c1, total - c2})
+				}
+			}
+		}
+	}
 	if total > 60000 {
 		add(c43Fixed(total, 50001))
 	}
@@ -532,7 +542,9 @@ func c43BuildB1(tags []protocol.Tag, withProto bool) []*c43Case {
 	var cases []*c43Case
 	for _, tag := range tags {
 		limit := c43Limit(tag)
-		lens := []int{limit - 1, limit, limit + 1}
+		// limit+200000: far beyond one allocation step, to see that reading STOPS at the limit (not merely that the
+		// message is rejected after it was buffered in full)
+		lens := []int{limit - 1, limit, limit + 1, limit + 200000}
 		if limit == 0 {
 			lens = []int{0, 1, 70000, MaxMessageLength - 1, MaxMessageLength, MaxMessageLength + 1}
 		}
@@ -638,6 +650,8 @@ func c43ScriptName(sc c43Script) string {
 		s = "1chunk"
 	case len(sc.Chunks) == 2:
 		s = fmt.Sprintf("cut@%d", sc.Chunks[0])
+	case len(sc.Chunks) == 3:
+		s = fmt.Sprintf("cuts@%d,%d", sc.Chunks[0], sc.Chunks[0]+sc.Chunks[1])
 	default:
 		s = fmt.Sprintf("%dx%d", len(sc.Chunks), sc.Chunks[len(sc.Chunks)/2])
 	}
